@@ -685,3 +685,118 @@ def interval_of_name_at(stmts, var, target, value_bounds):
         return iv
     cfg.paths(state0=(INF, INF), step=step, max_paths=20000)
     return sorted(found, key=str)
+
+
+def dict_emission(fdef):
+    """The per-item emission of a function that builds one dictionary from one iteration, written either as a dict comprehension or as
+    `d = {}; for T in IT: <guards>; d[K] = V`.  Returns dict(key, value, conds (list of condition expressions that all hold when the item
+    is emitted), iter, target, node) or None."""
+    comps = [c for c in walk_no_nested(fdef) if isinstance(c, ast.DictComp)]
+    if len(comps) == 1 and len(comps[0].generators) == 1:
+        c = comps[0]
+        conds = []
+        for t in c.generators[0].ifs:
+            conds.extend(t.values if isinstance(t, ast.BoolOp) and isinstance(t.op, ast.And) else [t])
+        return {'key': c.key, 'value': c.value, 'conds': conds, 'iter': c.generators[0].iter, 'target': c.generators[0].target, 'node': c}
+    for l in walk_no_nested(fdef):
+        if not isinstance(l, ast.For):
+            continue
+        stores = [s for s in walk_no_nested(l) if isinstance(s, ast.Assign) and len(s.targets) == 1 and isinstance(s.targets[0], ast.Subscript) and isinstance(s.targets[0].value, ast.Name)]
+        if len(stores) != 1:
+            continue
+        s = stores[0]
+        conds = []
+        for t, pol in (reach_conds(l.body, s) or []):
+            e = t if pol else ast.fix_missing_locations(ast.copy_location(ast.UnaryOp(op=ast.Not(), operand=t), t))
+            if not pol:
+                from .normalize import push_not
+                e = ast.fix_missing_locations(ast.copy_location(push_not(t), t))
+            conds.extend(e.values if isinstance(e, ast.BoolOp) and isinstance(e.op, ast.And) else [e])
+        return {'key': s.targets[0].slice, 'value': s.value, 'conds': conds, 'iter': l.iter, 'target': l.target, 'node': s}
+    return None
+
+
+def resolve_global(ix, relpath, name, _depth=0):
+    """(relpath, node) of the module-level definition (function / class / assignment) that `name` refers to in module `relpath`,
+    following `from <package module> import name [as alias]` chains inside the repository; None when not found."""
+    import os
+    if _depth > 4:
+        return None
+    try:
+        m = ix.module(relpath)
+    except Exception:
+        return None
+    for st in m.tree.body:
+        if isinstance(st, (ast.FunctionDef, ast.AsyncFunctionDef, ast.ClassDef)) and st.name == name:
+            return relpath, st
+        if isinstance(st, ast.Assign) and any(isinstance(t, ast.Name) and t.id == name for t in st.targets):
+            return relpath, st
+    for st in m.tree.body:
+        if isinstance(st, ast.ImportFrom):
+            for al in st.names:
+                if (al.asname or al.name) != name:
+                    continue
+                if st.level:
+                    base = os.path.dirname(relpath)
+                    for _ in range(st.level - 1):
+                        base = os.path.dirname(base)
+                    modpath = os.path.join(base, *(st.module.split('.') if st.module else []))
+                else:
+                    modpath = (st.module or '').replace('.', '/')
+                for rp in (modpath + '.py', modpath + '/__init__.py'):
+                    if ix.exists(rp):
+                        r = resolve_global(ix, rp, al.name, _depth + 1)
+                        if r:
+                            return r
+    return None
+
+
+def string_transform_chain(ix, relpath, fdef, expr, _depth=0):
+    """Decomposes a string-valued expression into (source expression, [operations applied to it, innermost first]) where operations are
+    'upper', 'lower', 'reverse' (`[::-1]`) and ('translate', folded table or None).  Local single-assignment names and repository
+    helper functions whose body is `return <chain over their first parameter>` are looked through."""
+    from .consteval import fold, TOP
+    ops = []
+    e = expr
+    for _ in range(20):
+        if isinstance(e, ast.Call) and isinstance(e.func, ast.Attribute) and e.func.attr in ('upper', 'lower') and not e.args:
+            ops.append(e.func.attr)
+            e = e.func.value
+        elif isinstance(e, ast.Call) and isinstance(e.func, ast.Attribute) and e.func.attr == 'translate' and len(e.args) == 1:
+            tab = None
+            t = e.args[0]
+            if isinstance(t, ast.Name):
+                r = resolve_global(ix, relpath, t.id)
+                if r and isinstance(r[1], ast.Assign):
+                    v = fold(r[1].value)
+                    tab = v if isinstance(v, dict) else None
+            ops.append(('translate', tab))
+            e = e.func.value
+        elif isinstance(e, ast.Subscript) and isinstance(e.slice, ast.Slice) and e.slice.lower is None and e.slice.upper is None and src(e.slice.step) == '-1':
+            ops.append('reverse')
+            e = e.value
+        elif isinstance(e, ast.Name) and fdef is not None:
+            ds = [s for s in walk_no_nested(fdef) if isinstance(s, ast.Assign) and len(s.targets) == 1 and isinstance(s.targets[0], ast.Name) and s.targets[0].id == e.id and s.lineno < getattr(e, 'lineno', 10**9)]
+            if len(ds) != 1:
+                break
+            e = ds[0].value
+        elif isinstance(e, ast.Call) and isinstance(e.func, ast.Name) and len(e.args) == 1 and not e.keywords and _depth < 3:
+            r = resolve_global(ix, relpath, e.func.id)
+            if not r or not isinstance(r[1], ast.FunctionDef) or len(r[1].args.args) != 1:
+                break
+            body = [s for s in r[1].body]
+            if len(body) != 1 or not isinstance(body[0], ast.Return) or body[0].value is None:
+                break
+            inner_src, inner_ops = string_transform_chain(ix, r[0], None, body[0].value, _depth + 1)
+            if not (isinstance(inner_src, ast.Name) and inner_src.id == r[1].args.args[0].arg):
+                break
+            # ops are outermost first while descending; the helper's ops apply after the argument's
+            ops.extend(inner_ops_outer_first(inner_ops))
+            e = e.args[0]
+        else:
+            break
+    return e, list(reversed(ops))
+
+
+def inner_ops_outer_first(inner_first):
+    return list(reversed(inner_first))
